@@ -43,7 +43,8 @@ pub struct Msl {
     pub sound: SoundType,
 
     /// Message
-    #[bw(write_with = binrw_write_codepage_string::<128, _>)]
+    // LFS requires the last byte to be zero: 127 bytes of text at most, then the terminator
+    #[bw(write_with = binrw_write_codepage_string::<127, _>, pad_after = 1)]
     #[br(parse_with = binrw_parse_codepage_string::<128, _>)]
     pub msg: String,
 }
